@@ -335,6 +335,7 @@ func run(c *hx.Ctx) error {
 		return err
 	}
 	deferStream(c)
+	deferCallees(c)
 	if built < nTemplates/2 {
 		return fmt.Errorf("only %d of %d generated templates build — generator is broken", built, nTemplates)
 	}
@@ -507,6 +508,159 @@ func deferStream(c *hx.Ctx) {
 								Human: fmt.Sprintf("writer failing from call %d on (body makes %d writes); Run returned %v, host panic %v\n--- index.html ---\n%s\nvars s=%q n=%v", k, bodyWrites, err, panicked, human, vars["s"], vars["n"]),
 								Impl: fmt.Sprint(err), Model: errE.Error()})
 						}
+					}
+				}
+			}
+		}
+	}
+}
+
+
+// deferCallees: a deferred call of every kind (native function with and without native.Env,
+// with arguments, variadic, method value, func value holding a native function, closure that
+// calls a native function, print builtin) is pending — at top level, inside a macro, inside a
+// macro called by a macro, registered in a loop — while the writer fails at every position k.
+// None of them recovers, so Run must return E, the host must not panic, nothing may be written
+// after the failure, and, as in Go, every deferred call registered before the failure runs
+// exactly once while the panic unwinds (Spec/GoDefer; the static side is the theorem
+// unwind_no_nil_fn_deref: deferred native calls run with vm.fn == nil).
+type dcCloser struct{ name string }
+
+var dcState struct {
+	regs int            // deferred calls registered (mark() is called right before each defer)
+	ran  map[string]int // deferred callee -> times run
+}
+
+func (c *dcCloser) Close()             { dcState.ran["obj.Close"]++ }
+func (c *dcCloser) CloseWith(s string) { dcState.ran["obj.CloseWith"]++ }
+
+func deferCallees(c *hx.Ctx) {
+	res := c.Res
+	obj := &dcCloser{name: "o"}
+	decl := native.Declarations{
+		"s": (*string)(nil), "n": (*int)(nil),
+		"obj":  &obj,
+		"mark": func() { dcState.regs++ },
+		"nat":  func() { dcState.ran["nat"]++ },
+		"natEnv": func(env native.Env) {
+			_ = env.CallPath()
+			_ = env.Context()
+			dcState.ran["natEnv"]++
+		},
+		"natEnvArg": func(env native.Env, s string) { _ = env.CallPath(); dcState.ran["natEnvArg"]++ },
+		"natArgs":   func(a int, s string) { dcState.ran["natArgs"]++ },
+		"natVar":    func(env native.Env, xs ...int) { _ = env.CallPath(); dcState.ran["natVar"]++ },
+		"natStr":    func(a string) int { dcState.ran["natStr"]++; return len(a) }, // one of the non-reflect fast-path signatures
+	}
+	callees := []string{
+		`nat()`, `natEnv()`, `natEnvArg(s)`, `natArgs(n, s)`, `natVar(1, 2, n)`, `natVar()`, `natStr(s)`,
+		`obj.Close()`, `obj.CloseWith(s)`,
+		`func() { natEnv() }()`, `func() { nat() }()`, `func(x string) { natEnvArg(x) }(s)`,
+		`fv()`, `fa(s)`, `print(n)`,
+	}
+	prelude := `{% var fv = natEnv %}{% var fa = natEnvArg %}`
+	bodies := []string{`<h1>{{ s }}</h1>`, `text{{ n }}`, `<p title="{{ s }}">x</p>{{ render "p.html" }}`, `{% for i := 0; i < 3; i++ %}{{ i }},{% end %}`, `{% if n > 0 %}a{{ s }}{% else %}b{% end %}tail`}
+	def := func(d string) string { return `{% mark() %}{% defer ` + d + ` %}` }
+	shapes := []struct {
+		name string
+		mk   func(d1, d2, body string) string
+	}{
+		{"top-level", func(d1, d2, body string) string { return prelude + def(d1) + body }},
+		{"top-level-two", func(d1, d2, body string) string { return prelude + def(d1) + def(d2) + body }},
+		{"after-first-write", func(d1, d2, body string) string { return prelude + "head" + def(d1) + body + def(d2) + "tail" }},
+		{"in-macro", func(d1, d2, body string) string {
+			return prelude + `{% macro Body %}` + def(d1) + body + `{% end %}before{{ Body() }}after`
+		}},
+		{"in-macro-called-by-macro", func(d1, d2, body string) string {
+			return prelude + `{% macro Inner %}` + def(d1) + body + `{% end %}{% macro Outer %}` + def(d2) + `pre{{ Inner() }}post{% end %}{{ Outer() }}tail`
+		}},
+		{"in-loop", func(d1, d2, body string) string {
+			return prelude + `{% for j := 0; j < 2; j++ %}` + def(d1) + `{% end %}` + body
+		}},
+		{"macro-called-twice", func(d1, d2, body string) string {
+			return prelude + `{% macro Body %}` + def(d1) + body + `{% end %}{{ Body() }}-{{ Body() }}`
+		}},
+	}
+	printed := 0
+	opts := &scriggo.RunOptions{Print: func(any) { printed++ }}
+	runOnce := func(t *scriggo.Template, w io.Writer, vars map[string]any) (err error, panicked any, regs, ran int) {
+		dcState.regs, dcState.ran, printed = 0, map[string]int{}, 0
+		func() {
+			defer func() {
+				if r := recover(); r != nil {
+					panicked = r
+				}
+			}()
+			err = t.Run(w, vars, opts)
+		}()
+		ran = printed
+		for _, v := range dcState.ran {
+			ran += v
+		}
+		return err, panicked, dcState.regs, ran
+	}
+	for si, sh := range shapes {
+		for di, d1 := range callees {
+			d2 := callees[(di+5)%len(callees)]
+			for bi, body := range bodies {
+				if c.Tier != "thorough" && (si+di+bi)%2 == 1 {
+					continue
+				}
+				src := sh.mk(d1, d2, body)
+				files := scriggo.Files{"index.html": []byte(src), "p.html": []byte(`<i>{{ s }}</i>`)}
+				t, err := scriggo.BuildTemplate(files, "index.html", &scriggo.BuildOptions{Globals: decl})
+				if err != nil {
+					res.Hist("defer-callee:build-error")
+					if res.Histogram["defer-callee:build-error"] <= 2 {
+						res.Notes = append(res.Notes, fmt.Sprintf("defer-callee template does not build: %v\n%s", err, src))
+					}
+					continue
+				}
+				vars := map[string]any{"s": randString(c.R, 8), "n": 1 + c.R.Intn(50)}
+				rec := &recWriter{}
+				err, p, regs, ran := runOnce(t, rec, vars)
+				if err != nil || p != nil {
+					// a template that fails without any writer failure is outside this property
+					// (e.g. a native function taking native.Env stored in a variable that a macro
+					// captures panics with reflect.Set on the unchanged tree: a C05 matter)
+					res.Hist("defer-callee:run-error-without-writer-failure")
+					continue
+				}
+				if regs != ran || regs == 0 {
+					res.AddBreak(proto.Break{Kind: "correspondence", Name: "defer-callee:successful-render-runs-every-deferred-call-once (Spec/GoDefer)", Case: "C13 defer-callee no-failure",
+						Human: fmt.Sprintf("no writer failure: %d deferred calls registered, %d run\n--- index.html ---\n%s", regs, ran, src), Impl: fmt.Sprint(ran), Model: fmt.Sprint(regs)})
+					continue
+				}
+				res.Hist("defer-callee:templates")
+				res.Hist("defer-callee:shape:" + sh.name)
+				for k := 1; k <= len(rec.chunks); k++ {
+					fw := &failWriter{k: k}
+					err, p, regs, ran := runOnce(t, fw, vars)
+					res.Count(fmt.Sprintf("defer-callee:%s#%d", src, k), regs > 0)
+					if regs > 0 {
+						res.Hist("defer-callee:failure-with-pending-deferred-call")
+					}
+					var want []byte
+					for _, ch := range rec.chunks[:k-1] {
+						want = append(want, ch...)
+					}
+					clause := ""
+					switch {
+					case p != nil:
+						clause = "host-panics"
+					case err != errE:
+						clause = "returns-other-than-E"
+					case fw.after > 0:
+						clause = "write-after-failure"
+					case string(fw.accepted) != string(want):
+						clause = "accepted-bytes-differ-from-first-k-1-chunks"
+					case ran != regs:
+						clause = "registered-deferred-call-not-run-exactly-once"
+					}
+					if clause != "" {
+						res.AddBreak(proto.Break{Kind: "property", Name: "defer-callee:" + clause, Case: fmt.Sprintf("C13 defer-callee k=%d", k),
+							Human: fmt.Sprintf("writer failing at call %d of %d; deferred callee `%s` (%s); Run returned %v, host panic %v, %d deferred calls registered, %d run, %d Write calls after the failure\n--- index.html ---\n%s\nvars s=%q n=%v", k, len(rec.chunks), d1, sh.name, err, p, regs, ran, fw.after, src, vars["s"], vars["n"]),
+							Impl: fmt.Sprintf("%v / panic %v / ran %d", err, p, ran), Model: fmt.Sprintf("%v / no panic / ran %d", errE, regs)})
 					}
 				}
 			}
